@@ -43,20 +43,20 @@ Proof.
     apply IH. apply body_quiet; auto.
 Qed.
 
-Lemma handle_error_tr r k kd : r_tr (handle_error r k kd) = r_tr r ++ [ERemove k; EFailure k kd].
+Lemma handle_error_tr st r k kd : r_tr (handle_error_gen tasks continue_ st r k kd) = r_tr r ++ [ERemove k; EFailure k kd].
 Proof. reflexivity. Qed.
-Lemma handle_error_td r k kd : r_td (handle_error r k kd) = r_td r.
+Lemma handle_error_td st r k kd : r_td (handle_error_gen tasks continue_ st r k kd) = r_td r.
 Proof. reflexivity. Qed.
 
 Lemma body_handle_error r k kd : body (r_tr r) -> body (r_tr (handle_error r k kd)).
-Proof. intro H. rewrite handle_error_tr. apply body_app_quiet; auto. repeat constructor. Qed.
+Proof. intro H. unfold Runner.handle_error. rewrite handle_error_tr. apply body_app_quiet; auto. repeat constructor. Qed.
 
 (* select_task only adds quiet events and leaves the teardown list alone *)
 Lemma select_task_spec r k b r1 :
   select_task r k = (b, r1) ->
   exists l, r_tr r1 = r_tr r ++ l /\ Forall quiet l /\ r_td r1 = r_td r.
 Proof.
-  unfold Runner.select_task, get_args, Runner.handle_error, emit, with_d. intro H.
+  unfold Runner.select_task, get_args, Runner.handle_error, Runner.handle_error_gen, emit, with_d. intro H.
   repeat match type of H with
          | context [if ?c then _ else _] => destruct c
          | context [match ?x with _ => _ end] => destruct x
@@ -77,15 +77,13 @@ Lemma process_result_body r k :
   body (r_tr (process_result (start_task r k) k)) /\ r_td (process_result (start_task r k) k) = r_td (start_task r k).
 Proof.
   intros Hn Hb. unfold Runner.process_result.
-  destruct (t_outcome (get_task k)) eqn:E; try congruence.
-  - split; [|reflexivity]. cbn [r_tr emit with_d Runner.start_task].
-    rewrite <- app_assoc. apply body_ok; auto.
-  - split; [|reflexivity]. rewrite handle_error_tr. cbn [r_tr Runner.start_task]. rewrite <- app_assoc.
-    apply body_bad; auto. congruence.
-  - split; [|reflexivity]. rewrite handle_error_tr. cbn [r_tr Runner.start_task]. rewrite <- app_assoc.
-    apply body_bad; auto. congruence.
-  - split; [|reflexivity]. rewrite handle_error_tr. cbn [r_tr Runner.start_task]. rewrite <- app_assoc.
-    apply body_bad; auto. congruence.
+  (* one case per outcome constructor: OOk saves, OInterrupt is excluded, every other outcome goes through
+     handle_error_gen (robust against new failure outcomes being added to the model) *)
+  destruct (t_outcome (get_task k)) eqn:E; try congruence;
+    (split; [|reflexivity]);
+    first [ cbn [r_tr emit with_d Runner.start_task]; rewrite <- app_assoc; apply body_ok; assumption
+          | unfold Runner.handle_error; rewrite handle_error_tr; cbn [r_tr Runner.start_task]; rewrite <- app_assoc;
+            apply body_bad; [congruence|assumption] ].
 Qed.
 
 Lemma is_interrupt_spec k : is_interrupt tasks k = true <-> t_outcome (get_task k) = OInterrupt.
@@ -210,7 +208,6 @@ Proof.
       destruct (body_saved b Hb j Hin') as (A & a & c & E). split; auto. exists a, (c ++ [EExecute k]). rewrite E, <- app_assoc. reflexivity.
 Qed.
 End Interrupt.
-
 (* ---- the session as backend operations: the DB gains a record only through a save ---- *)
 Section SessionDB.
 Variable recd : name -> list (N * Z).
@@ -226,7 +223,7 @@ Lemma exec_sets_has (t : N) (l : list (N * Z)) : forall (m : spec),
   has m t = true \/ l <> [] -> has (exec spec_step m (map (fun kv => Set_ t (fst kv) (snd kv)) l)) t = true.
 Proof.
   induction l as [|kv l IH]; intros m H; simpl.
-  - destruct H as [H|H]; auto. congruence.
+  - destruct H as [H|H]; [auto|congruence].
   - apply IH. left. unfold has, upd. rewrite N.eqb_refl. reflexivity.
 Qed.
 
@@ -248,9 +245,9 @@ Lemma db_ops_unsaved tr : forall (m : spec) j, ~ In (ESave j) tr ->
 Proof.
   induction tr as [|e tr IH]; intros m j Hs H; auto.
   rewrite ops_cons, exec_app in H. apply IH in H; [| intro; apply Hs; right; auto].
-  destruct e; simpl in H; auto.
-  - unfold has in *. rewrite exec_sets_other in H; auto. intros ->. apply Hs. left. reflexivity.
-  - unfold has, del in *. destruct (N.eqb j k); auto. discriminate.
+  destruct e; cbn [event_ops exec] in H; auto.
+  - unfold has, save_ops in *. rewrite exec_sets_other in H; auto. intros ->. apply Hs. left. reflexivity.
+  - simpl in H. unfold has, del in *. destruct (N.eqb j k); auto. discriminate.
 Qed.
 
 Lemma db_ops_kept tr : forall (m : spec) j, has m j = true -> ~ In (ERemove j) tr ->
@@ -258,11 +255,11 @@ Lemma db_ops_kept tr : forall (m : spec) j, has m j = true -> ~ In (ERemove j) t
 Proof.
   induction tr as [|e tr IH]; intros m j H Hr; auto.
   rewrite ops_cons, exec_app. apply IH; [| intro; apply Hr; right; auto].
-  destruct e; simpl; auto.
+  destruct e; cbn [event_ops exec]; auto.
   - destruct (N.eqb_spec j k) as [->|Hne].
     + apply exec_sets_has. auto.
-    + unfold has in *. rewrite exec_sets_other; auto.
-  - unfold has, del in *. destruct (N.eqb_spec j k); auto. subst. exfalso. apply Hr. left. reflexivity.
+    + unfold has, save_ops in *. rewrite exec_sets_other; auto.
+  - simpl. unfold has, del in *. destruct (N.eqb_spec j k); auto. subst. exfalso. apply Hr. left. reflexivity.
 Qed.
 
 Lemma db_ops_saved tr : forall (m : spec) j, In (ESave j) tr -> ~ In (ERemove j) tr -> recd j <> [] ->
@@ -320,3 +317,1011 @@ Proof.
   - unfold dbm_get. destruct (d_db E s t); auto. destruct (d_dbm E s t); auto.
 Qed.
 End Frames.
+
+(* ===================================================================================================== *)
+(* (b) kill half: JsonDB and SqliteDB                                                                     *)
+(* ===================================================================================================== *)
+Lemma crash_after_app {D St : Type} (apply : D -> St -> D) (d : D) (s1 s2 : list St) (k : nat) :
+  crash_after apply d (s1 ++ s2) k =
+  if k <=? length s1 then crash_after apply d s1 k
+  else crash_after apply (fold_left apply s1 d) s2 (k - length s1).
+Proof.
+  unfold crash_after. rewrite firstn_app, fold_left_app.
+  destruct (k <=? length s1) eqn:E.
+  - apply Nat.leb_le in E. replace (k - length s1) with 0 by lia. reflexivity.
+  - apply Nat.leb_gt in E. rewrite (firstn_all2 s1) by lia. reflexivity.
+Qed.
+Lemma crash_after_all {D St : Type} (apply : D -> St -> D) (d : D) (s : list St) (k : nat) :
+  length s <= k -> crash_after apply d s k = fold_left apply s d.
+Proof. intro H. unfold crash_after. rewrite firstn_all2; auto. Qed.
+
+Lemma fold_japply_appends (chunks : list bytes) : forall x,
+  fold_left japply (map JAppend chunks) (Some x) = Some (x ++ concat chunks).
+Proof.
+  induction chunks as [|c r IH]; intro x; simpl.
+  - rewrite app_nil_r. reflexivity.
+  - rewrite IH, <- app_assoc. reflexivity.
+Qed.
+
+Lemma json_crash_S old chunks k :
+  json_crash old chunks (S k) = Some (concat (firstn k chunks)).
+Proof.
+  unfold json_crash, crash_after, json_dump_steps. rewrite firstn_cons. simpl fold_left.
+  rewrite firstn_map, fold_japply_appends. reflexivity.
+Qed.
+
+Theorem json_crash_cases old chunks k :
+  json_crash old chunks k = old \/
+  json_crash old chunks k = Some (concat chunks) \/
+  exists p, json_crash old chunks k = Some p /\ proper_prefix p (concat chunks).
+Proof.
+  destruct k as [|k]; [left; reflexivity|]. right. rewrite json_crash_S.
+  assert (Hc : concat chunks = concat (firstn k chunks) ++ concat (skipn k chunks)).
+  { rewrite <- concat_app, firstn_skipn. reflexivity. }
+  rewrite Hc. destruct (concat (skipn k chunks)) as [|x s] eqn:E.
+  - left. rewrite app_nil_r. reflexivity.
+  - right. exists (concat (firstn k chunks)). split; auto. exists (x :: s). split; [discriminate|reflexivity].
+Qed.
+
+(* all the steps = what Backends.json_dump writes *)
+Lemma json_crash_complete old chunks k : S (length chunks) <= k -> json_crash old chunks k = Some (concat chunks).
+Proof.
+  intro H. destruct k as [|k]; [lia|]. rewrite json_crash_S. rewrite firstn_all2 by lia. reflexivity.
+Qed.
+
+Section JsonCrashLoad.
+  Variable encdb : tmap -> bytes.
+  Variable decdb : bytes -> option tmap.
+  Hypothesis Jp : J_prefix encdb decdb.
+
+  (* what the next process's JsonDB(...) does with the file a kill left *)
+  Theorem json_crash_load old m chunks k : concat chunks = encdb m ->
+    let f := json_crash old chunks k in
+    json_load decdb f = json_load decdb old \/ json_load decdb f = json_load decdb (Some (encdb m)) \/
+    json_load decdb f = Refused.
+  Proof.
+    intros Hc f. destruct (json_crash_cases old chunks k) as [E|[E|(p & E & Hp)]]; subst f; rewrite E.
+    - left. reflexivity.
+    - right. left. rewrite Hc. reflexivity.
+    - right. right. rewrite Hc in Hp. simpl. rewrite (Jp m p Hp). reflexivity.
+  Qed.
+
+  Lemma json_crash_is_dump (s : jsondb bytes) chunks :
+    concat chunks = encdb (j_db bytes s) ->
+    json_crash (j_file bytes s) chunks (S (length chunks)) = j_file bytes (json_dump bytes encdb s).
+  Proof. intro H. rewrite json_crash_complete; [|apply le_n]. rewrite H. reflexivity. Qed.
+End JsonCrashLoad.
+
+Section SqliteCrash.
+  Variable E : Type.
+  Variable enc : trec -> E.
+  Theorem sqlite_crash_cases (s : sqlitedb E) k :
+    sq_crash E enc s k = q_disk E s \/ exists t, sq_dump E enc s = Some t /\ sq_crash E enc s k = t.
+  Proof.
+    unfold sq_crash, sq_dump_steps, crash_after. destruct (sq_dump E enc s) as [t|].
+    - destruct k as [|k]; [left; reflexivity|]. right. exists t. split; auto. simpl. rewrite firstn_nil. reflexivity.
+    - left. rewrite firstn_nil. reflexivity.
+  Qed.
+End SqliteCrash.
+
+(* ===================================================================================================== *)
+(* (b) kill half: dbm.dumb                                                                                *)
+(* ===================================================================================================== *)
+(* ---- block arithmetic ---- *)
+Lemma nb_spec n : exists q r, n + 511 = 512 * q + r /\ r < 512 /\ nblocks n = q.
+Proof.
+  unfold nblocks, BLOCK. simpl Nat.sub. exists ((n + 511) / 512), ((n + 511) mod 512).
+  split; [apply Nat.div_mod; lia|]. split; auto. apply Nat.mod_upper_bound. lia.
+Qed.
+Lemma roundup_ge n : n <= roundup n.
+Proof. unfold roundup, BLOCK. destruct (nb_spec n) as (q & r & A & B & ->). lia. Qed.
+Lemma roundup_mono a b : a <= b -> roundup a <= roundup b.
+Proof.
+  unfold roundup, BLOCK. intro H. destruct (nb_spec a) as (q1 & r1 & A1 & B1 & ->).
+  destruct (nb_spec b) as (q2 & r2 & A2 & B2 & ->). lia.
+Qed.
+Lemma roundup_aligned x l : roundup (roundup x + l) = roundup x + nblocks l * BLOCK.
+Proof.
+  unfold roundup, BLOCK. destruct (nb_spec x) as (q1 & r1 & A1 & B1 & E1). rewrite E1.
+  destruct (nb_spec l) as (q2 & r2 & A2 & B2 & ->). destruct (nb_spec (q1 * 512 + l)) as (q3 & r3 & A3 & B3 & ->). lia.
+Qed.
+Lemma nblocks_ge n : n <= nblocks n * BLOCK.
+Proof. apply roundup_ge. Qed.
+Lemma nblocks_mono a b : a <= b -> nblocks a <= nblocks b.
+Proof. intro H. apply roundup_mono in H. unfold roundup, BLOCK in H. lia. Qed.
+
+(* ---- the .dat file as a list of bytes ---- *)
+Lemma write_at_in pos bs d : pos <= length d ->
+  write_at pos bs d = firstn pos d ++ bs ++ skipn (pos + length bs) d.
+Proof. intro H. unfold write_at. replace (pos - length d) with 0 by lia. reflexivity. Qed.
+
+Lemma write_at_length pos bs d : pos <= length d ->
+  length (write_at pos bs d) = Nat.max (length d) (pos + length bs).
+Proof.
+  intro H. rewrite write_at_in by auto. rewrite !app_length, firstn_length, skipn_length. lia.
+Qed.
+
+Lemma skipn_skipn' {A} (a b : nat) (l : list A) : skipn a (skipn b l) = skipn (b + a) l.
+Proof.
+  revert l. induction b as [|b IH]; intro l; simpl; auto.
+  destruct l; simpl; auto. destruct a; reflexivity.
+Qed.
+
+Lemma read_write_before pos bs d p s : p + s <= pos -> pos <= length d ->
+  read_at p s (write_at pos bs d) = read_at p s d.
+Proof.
+  intros H1 H2. rewrite write_at_in by auto. unfold read_at.
+  rewrite skipn_app, firstn_length, Nat.min_l by lia. replace (p - pos) with 0 by lia. rewrite skipn_O.
+  rewrite firstn_app, skipn_length, firstn_length, Nat.min_l by lia. replace (s - (pos - p)) with 0 by lia.
+  rewrite firstn_O, app_nil_r. rewrite skipn_firstn_comm, firstn_firstn, Nat.min_l by lia. reflexivity.
+Qed.
+
+Lemma read_write_after pos bs d p s : pos + length bs <= p -> pos <= length d ->
+  read_at p s (write_at pos bs d) = read_at p s d.
+Proof.
+  intros H1 H2. rewrite write_at_in by auto. unfold read_at. f_equal.
+  rewrite skipn_app, firstn_length, Nat.min_l by lia.
+  rewrite (skipn_all2 (firstn pos d)) by (rewrite firstn_length; lia). simpl app.
+  rewrite skipn_app. rewrite (skipn_all2 bs) by lia. simpl app.
+  rewrite skipn_skipn'. f_equal. lia.
+Qed.
+
+Lemma read_write_exact pos bs d : pos <= length d -> read_at pos (length bs) (write_at pos bs d) = bs.
+Proof.
+  intro H. rewrite write_at_in by auto. unfold read_at.
+  rewrite skipn_app, firstn_length, Nat.min_l by lia. replace (pos - pos) with 0 by lia. rewrite skipn_O.
+  rewrite (skipn_all2 (firstn pos d)) by (rewrite firstn_length; lia). simpl app.
+  rewrite firstn_app. replace (length bs - length bs) with 0 by lia. rewrite firstn_O, app_nil_r.
+  apply firstn_all.
+Qed.
+
+Lemma read_write_same pos bs d s : pos + s <= length d ->
+  read_at pos s (write_at pos bs d) = firstn s (bs ++ skipn (length bs) (read_at pos s d)).
+Proof.
+  intro H. rewrite write_at_in by lia. unfold read_at.
+  rewrite skipn_app, firstn_length, Nat.min_l by lia. replace (pos - pos) with 0 by lia. rewrite skipn_O.
+  rewrite (skipn_all2 (firstn pos d)) by (rewrite firstn_length; lia). simpl app.
+  rewrite skipn_firstn_comm, skipn_skipn'. rewrite !firstn_app. f_equal.
+  rewrite firstn_firstn, Nat.min_id. reflexivity.
+Qed.
+
+Lemma read_at_length p s d : p + s <= length d -> length (read_at p s d) = s.
+Proof. intro H. unfold read_at. rewrite firstn_length, skipn_length. lia. Qed.
+
+Lemma write_at_end bs d : write_at (length d) bs d = d ++ bs.
+Proof.
+  rewrite write_at_in by lia. rewrite firstn_all, skipn_all2 by lia. rewrite app_nil_r. reflexivity.
+Qed.
+Lemma read_app p s d x : p + s <= length d -> read_at p s (d ++ x) = read_at p s d.
+Proof.
+  intro H. unfold read_at. rewrite skipn_app. replace (p - length d) with 0 by lia. rewrite skipn_O.
+  rewrite firstn_app, skipn_length. replace (s - (length d - p)) with 0 by lia. rewrite firstn_O, app_nil_r. reflexivity.
+Qed.
+Lemma read_app_new d x : read_at (length d) (length x) (d ++ x) = x.
+Proof.
+  unfold read_at. rewrite skipn_app, skipn_all. replace (length d - length d) with 0 by lia. rewrite skipn_O. simpl.
+  apply firstn_all.
+Qed.
+
+(* ---- the index as a python dict ---- *)
+Lemma lookup_None k idx : lookup k idx = None <-> ~ In k (map e_key idx).
+Proof.
+  unfold lookup. induction idx as [|e idx IH]; simpl; [tauto|].
+  unfold ekey_eqb at 1. destruct (N.eqb_spec (e_key e) k) as [E|E].
+  - split; [discriminate|]. intro H. exfalso. apply H. auto.
+  - rewrite IH. split; [intros H [H1|H1]; auto | intros H H1; apply H; auto].
+Qed.
+Lemma lookup_Some k idx e : lookup k idx = Some e -> In e idx /\ e_key e = k.
+Proof.
+  unfold lookup. intro H. apply find_some in H. destruct H as [H1 H2]. split; auto.
+  unfold ekey_eqb in H2. apply N.eqb_eq in H2. exact H2.
+Qed.
+Lemma lookup_unique k idx e : NoDup (map e_key idx) -> In e idx -> e_key e = k -> lookup k idx = Some e.
+Proof.
+  unfold lookup. induction idx as [|x idx IH]; simpl; intros Hn Hi Hk; [contradiction|].
+  inversion Hn as [|? ? Hx Hn']; subst. unfold ekey_eqb at 1.
+  destruct Hi as [->|Hi].
+  - rewrite N.eqb_refl. reflexivity.
+  - destruct (N.eqb_spec (e_key x) (e_key e)) as [E|E].
+    + exfalso. apply Hx. rewrite E. apply in_map. exact Hi.
+    + apply IH; auto.
+Qed.
+
+Lemma dict_set_new idx e : ~ In (e_key e) (map e_key idx) -> dict_set idx e = idx ++ [e].
+Proof. intro H. unfold dict_set. apply lookup_None in H. rewrite H. reflexivity. Qed.
+
+Lemma dumb_load_app l : forall acc, NoDup (map e_key (acc ++ l)) -> fold_left dict_set l acc = acc ++ l.
+Proof.
+  induction l as [|e l IH]; intros acc H; simpl.
+  - rewrite app_nil_r. reflexivity.
+  - rewrite dict_set_new.
+    + rewrite IH; rewrite <- app_assoc; auto.
+    + rewrite map_app in H. apply NoDup_remove_2 in H. intro Hc. apply H. apply in_or_app. left. exact Hc.
+Qed.
+Lemma dumb_load_id l : NoDup (map e_key l) -> dumb_load l = l.
+Proof. intro H. unfold dumb_load. apply (dumb_load_app l []). exact H. Qed.
+
+Lemma dict_set_old_keys idx e e1 : lookup (e_key e) idx = Some e1 -> map e_key (dict_set idx e) = map e_key idx.
+Proof.
+  intro H. unfold dict_set. rewrite H. rewrite map_map. apply map_ext_in. intros x _.
+  unfold ekey_eqb. destruct (N.eqb_spec (e_key x) (e_key e)); auto.
+Qed.
+Lemma dict_set_old_in idx e e1 x : lookup (e_key e) idx = Some e1 ->
+  In x (dict_set idx e) -> x = e \/ (In x idx /\ e_key x <> e_key e).
+Proof.
+  intros H Hi. unfold dict_set in Hi. rewrite H in Hi. apply in_map_iff in Hi. destruct Hi as (y & Ey & Hy).
+  unfold ekey_eqb in Ey. destruct (N.eqb_spec (e_key y) (e_key e)); subst; auto.
+Qed.
+Lemma dict_set_old_has idx e e1 : lookup (e_key e) idx = Some e1 -> In e (dict_set idx e).
+Proof.
+  intro H. unfold dict_set. rewrite H. apply lookup_Some in H. destruct H as [H1 H2].
+  apply in_map_iff. exists e1. split; auto. unfold ekey_eqb. rewrite H2, N.eqb_refl. reflexivity.
+Qed.
+Lemma dict_set_old_keeps idx e e1 x : lookup (e_key e) idx = Some e1 -> In x idx -> e_key x <> e_key e -> In x (dict_set idx e).
+Proof.
+  intros H Hi Hk. unfold dict_set. rewrite H. apply in_map_iff. exists x. split; auto.
+  unfold ekey_eqb. apply N.eqb_neq in Hk. rewrite Hk. reflexivity.
+Qed.
+
+Lemma dict_del_in idx k x : In x (dict_del idx k) <-> In x idx /\ e_key x <> k.
+Proof.
+  unfold dict_del. rewrite filter_In. unfold ekey_eqb. rewrite negb_true_iff, N.eqb_neq. tauto.
+Qed.
+Lemma NoDup_map_filter {A B} (f : A -> B) (p : A -> bool) l : NoDup (map f l) -> NoDup (map f (filter p l)).
+Proof.
+  induction l as [|x l IH]; simpl; intro H; auto. inversion H; subst.
+  destruct (p x); simpl; auto. constructor; auto.
+  intro Hc. apply in_map_iff in Hc. destruct Hc as (y & Ey & Hy). apply filter_In in Hy.
+  apply H2. rewrite <- Ey. apply in_map. tauto.
+Qed.
+
+Lemma NoDup_app_l {A} (a b : list A) : NoDup (a ++ b) -> NoDup a.
+Proof.
+  induction a as [|x a IH]; simpl; intro H; constructor; inversion H; subst; auto.
+  intro Hc. apply H2. apply in_or_app. auto.
+Qed.
+
+Lemma NoDup_snoc' {A} (l : list A) (x : A) : NoDup l -> ~ In x l -> NoDup (l ++ [x]).
+Proof.
+  induction l as [|y l IH]; simpl; intros H Hx; [constructor; [intros []|constructor]|].
+  inversion H; subst. constructor.
+  - intro Hc. apply in_app_or in Hc. destruct Hc as [Hc|[Hc|[]]]; [contradiction|]. apply Hx. left. symmetry. exact Hc.
+  - apply IH; auto.
+Qed.
+
+(* ---- crash states of one session ---- *)
+Section DumbCrash.
+Variable idx0 : list entry.          (* the index found at open *)
+Variable dat0 : bytes.               (* the .dat file found at open *)
+Variable sets : list (N * bytes).    (* the stores of DbmDB.dump *)
+Hypothesis WF0 : idx_wf idx0 (length dat0).
+Let base0 := roundup (length dat0).
+
+Definition rd (e : entry) (D : bytes) : bytes := read_at (e_pos e) (e_siz e) D.
+
+(* a line of the .dir file is harmless: it names an original entry whose bytes are still the old value or the old
+   value overwritten in place by the new one, or it names a place that holds the new value *)
+Definition line_ok (D : bytes) (e : entry) : Prop :=
+  (In e idx0 /\ (rd e D = rd e dat0 \/ exists new, In (e_key e, new) sets /\ rd e D = torn (rd e dat0) new))
+  \/ (exists new, In (e_key e, new) sets /\ rd e D = new).
+
+Definition good (d : ddisk) : Prop :=
+  match dk_dir d with
+  | Some (l, false) => NoDup (map e_key l) /\ Forall (line_ok (dk_dat d)) l
+  | _ => True
+  end.
+Definition all_good (d : ddisk) (st : list dstep) : Prop := forall k, good (crash_after dapply d st k).
+
+Lemma all_good_nil d : good d -> all_good d [].
+Proof. intros H k. unfold crash_after. rewrite firstn_nil. exact H. Qed.
+Lemma all_good_cons d s st : good d -> all_good (dapply d s) st -> all_good d (s :: st).
+Proof. intros H1 H2 [|k]; [exact H1|]. apply (H2 k). Qed.
+Lemma all_good_app d s1 s2 : all_good d s1 -> all_good (dapply_all d s1) s2 -> all_good d (s1 ++ s2).
+Proof.
+  intros H1 H2 k. rewrite crash_after_app. destruct (k <=? length s1); [apply H1|apply H2].
+Qed.
+Lemma all_good_head d st : all_good d st -> good d.
+Proof. intro H. apply (H 0). Qed.
+
+Lemma line_ok_rd D D' e : rd e D' = rd e D -> line_ok D e -> line_ok D' e.
+Proof. unfold line_ok. intros E H. rewrite E. exact H. Qed.
+
+(* where an entry may live: inside the blocks of the original entry of its key, or beyond everything original *)
+Definition safe (e : entry) : Prop :=
+  (exists e0, In e0 idx0 /\ e_key e0 = e_key e /\ e_pos e0 <= e_pos e /\ e_pos e + e_siz e <= e_end e0) \/ base0 <= e_pos e.
+Definition einv (D : bytes) (e : entry) : Prop := safe e /\ e_pos e + e_siz e <= length D /\ line_ok D e.
+
+Lemma einv_orig e : In e idx0 -> einv dat0 e.
+Proof.
+  intro H. split; [|split].
+  - left. exists e. repeat split; auto. unfold e_end. pose proof (nblocks_ge (e_siz e)). lia.
+  - apply (wf_inb _ _ WF0). exact H.
+  - left. split; auto.
+Qed.
+
+Lemma einv_append D x e : einv D e -> einv (D ++ x) e.
+Proof.
+  intros (S1 & S2 & S3). split; auto. split; [rewrite app_length; lia|].
+  eapply line_ok_rd; [|exact S3]. apply read_app. exact S2.
+Qed.
+
+Lemma rd_inplace_other D e0 new e :
+  In e0 idx0 -> length new <= nblocks (e_siz e0) * BLOCK -> e_pos e0 <= length D ->
+  safe e -> e_key e <> e_key e0 -> rd e (write_at (e_pos e0) new D) = rd e D.
+Proof.
+  intros H0 Hl Hp Hs Hk. unfold rd. pose proof (wf_end _ _ WF0 e0 H0) as He0. unfold e_end in He0.
+  destruct Hs as [(e1 & H1 & K1 & P1 & Q1)|Hb].
+  - destruct (wf_disj _ _ WF0 e0 e1 H0 H1) as [Hd|Hd]; [congruence| |]; unfold e_end in *.
+    + apply read_write_after; lia.
+    + apply read_write_before; lia.
+  - apply read_write_after; auto. fold base0 in He0. lia.
+Qed.
+
+Lemma einv_inplace_other D e0 new e :
+  In e0 idx0 -> length new <= nblocks (e_siz e0) * BLOCK -> e_pos e0 <= length D ->
+  einv D e -> e_key e <> e_key e0 -> einv (write_at (e_pos e0) new D) e.
+Proof.
+  intros H0 Hl Hp (S1 & S2 & S3) Hk. split; auto. split.
+  - rewrite write_at_length by auto. lia.
+  - eapply line_ok_rd; [|exact S3]. apply rd_inplace_other; auto.
+Qed.
+
+(* ---- _commit ---- *)
+Lemma lines_good rest : forall d acc,
+  dk_dir d = Some (acc, false) -> NoDup (map e_key (acc ++ rest)) -> Forall (line_ok (dk_dat d)) (acc ++ rest) ->
+  let st := flat_map (fun e => [SDirTear; SDirLine e]) rest in
+  all_good d st /\ dk_dat (dapply_all d st) = dk_dat d /\ dk_dir (dapply_all d st) = Some (acc ++ rest, false).
+Proof.
+  induction rest as [|e rest IH]; intros d acc Hd Hn Hf; cbv zeta.
+  - simpl. rewrite app_nil_r in *. split; [|split]; auto. apply all_good_nil. unfold good. rewrite Hd. auto.
+  - assert (G0 : good d).
+    { unfold good. rewrite Hd. rewrite map_app in Hn. apply NoDup_app_l in Hn. split; auto.
+      apply Forall_app in Hf. apply Hf. }
+    set (d2 := dapply (dapply d SDirTear) (SDirLine e)).
+    assert (E2 : dk_dir d2 = Some (acc ++ [e], false)) by (unfold d2; simpl; rewrite Hd; reflexivity).
+    assert (D2 : dk_dat d2 = dk_dat d) by reflexivity.
+    destruct (IH d2 (acc ++ [e])) as (A & B & C).
+    { exact E2. } { rewrite <- app_assoc. exact Hn. } { rewrite D2, <- app_assoc. exact Hf. }
+    simpl flat_map. split; [|split].
+    + apply all_good_cons; auto. apply all_good_cons; auto.
+      unfold good. simpl. rewrite Hd. exact I.
+    + change (dk_dat (dapply_all d2 (flat_map (fun e => [SDirTear; SDirLine e]) rest)) = dk_dat d). rewrite B. exact D2.
+    + change (dk_dir (dapply_all d2 (flat_map (fun e => [SDirTear; SDirLine e]) rest)) = Some (acc ++ e :: rest, false)).
+      rewrite C, <- app_assoc. reflexivity.
+Qed.
+
+Lemma commit_good m d :
+  good d -> NoDup (map e_key (m_index m)) -> Forall (line_ok (dk_dat d)) (m_index m) ->
+  all_good d (commit_steps m) /\ dk_dat (dapply_all d (commit_steps m)) = dk_dat d /\
+  (m_modified m = true -> dk_dir (dapply_all d (commit_steps m)) = Some (m_index m, false)) /\
+  (m_modified m = false -> dapply_all d (commit_steps m) = d).
+Proof.
+  intros G Hn Hf. unfold commit_steps. destruct (m_modified m).
+  - set (d1 := dapply d SBakUnlink). set (d2 := dapply d1 SDirToBak). set (d3 := dapply d2 SDirCreate).
+    assert (G1 : good d1) by exact G.
+    assert (D2 : dk_dat d2 = dk_dat d).
+    { unfold d2, d1. simpl. destruct (dk_dir d); reflexivity. }
+    assert (G2 : good d2).
+    { unfold d2, d1. simpl. destruct (dk_dir d) eqn:E; unfold good; simpl; exact I. }
+    assert (E3 : dk_dir d3 = Some ([], false)) by reflexivity.
+    assert (D3 : dk_dat d3 = dk_dat d) by (unfold d3; simpl; exact D2).
+    destruct (lines_good (m_index m) d3 []) as (A & B & C); auto.
+    { rewrite D3. exact Hf. }
+    simpl app in *. split; [|split; [|split]].
+    + apply all_good_cons; auto. apply all_good_cons; auto. apply all_good_cons; auto.
+    + change (dk_dat (dapply_all d3 (flat_map (fun e => [SDirTear; SDirLine e]) (m_index m))) = dk_dat d). rewrite B. exact D3.
+    + intros _. exact C.
+    + discriminate.
+  - simpl. split; [apply all_good_nil; auto|]. split; [reflexivity|]. split; [discriminate|reflexivity].
+Qed.
+
+(* ---- DbmDB.dump: the stores ---- *)
+Record SI (todo : list (N * bytes)) (m : dmem) (d : ddisk) (L : list entry) : Prop := {
+  si_dir : dk_dir d = Some (L, false) \/ (dk_dir d = None /\ L = []);
+  si_nd : NoDup (map e_key (m_index m));
+  si_idx : Forall (einv (dk_dat d)) (m_index m);
+  si_Lnd : NoDup (map e_key L);
+  si_L : Forall (einv (dk_dat d)) L;
+  si_Lk : incl (map e_key L) (map e_key (m_index m));
+  si_todo_idx : forall e, In e (m_index m) -> In (e_key e) (map fst todo) -> In e idx0 /\ rd e (dk_dat d) = rd e dat0;
+  si_todo_L : forall e, In e L -> In (e_key e) (map fst todo) -> In e (m_index m);
+  si_len : length dat0 <= length (dk_dat d)
+}.
+
+Lemma einv_line_ok D l : Forall (einv D) l -> Forall (line_ok D) l.
+Proof. apply Forall_impl. intros e (_ & _ & H). exact H. Qed.
+
+Lemma SI_good todo m d L : SI todo m d L -> good d.
+Proof.
+  intro H. unfold good. destruct (si_dir _ _ _ _ H) as [E|[E _]]; rewrite E; auto.
+  split; [apply (si_Lnd _ _ _ _ H)|apply einv_line_ok, (si_L _ _ _ _ H)].
+Qed.
+
+Lemma good_dat d D' : (forall l, dk_dir d = Some (l, false) -> Forall (line_ok D') l) -> good d ->
+  good {| dk_dat := D'; dk_dir := dk_dir d; dk_bak := dk_bak d |}.
+Proof.
+  unfold good. simpl. destruct (dk_dir d) as [[l [|]]|]; auto. intros H [H1 _]. split; auto.
+Qed.
+
+(* the two writes of _addval *)
+Lemma addval_good todo m d L new :
+  SI todo m d L ->
+  let D := dk_dat d in
+  let np := roundup (length D) in
+  let pad := repeat 0%N (np - length D) in
+  let d1 := dapply d (SDatWrite (length D) pad) in
+  let d2 := dapply d1 (SDatWrite np new) in
+  good d1 /\ good d2 /\ dk_dat d2 = (D ++ pad) ++ new /\ dk_dir d2 = dk_dir d /\ length (D ++ pad) = np /\
+  (forall x, einv D x -> einv ((D ++ pad) ++ new) x /\ rd x ((D ++ pad) ++ new) = rd x D).
+Proof.
+  intros H D np pad d1 d2.
+  assert (Lp : length (D ++ pad) = np).
+  { rewrite app_length. unfold pad. rewrite repeat_length. pose proof (roundup_ge (length D)). fold np in H0. lia. }
+  assert (E1 : dk_dat d1 = D ++ pad) by (unfold d1; simpl; apply write_at_end).
+  assert (E2 : dk_dat d2 = (D ++ pad) ++ new).
+  { unfold d2. simpl. fold D. rewrite write_at_end. rewrite <- Lp. apply write_at_end. }
+  assert (X : forall x, einv D x -> einv ((D ++ pad) ++ new) x /\ rd x ((D ++ pad) ++ new) = rd x D).
+  { intros x Hx. split; [apply einv_append, einv_append; exact Hx|].
+    destruct Hx as (_ & B & _). unfold rd. rewrite read_app by (rewrite app_length; lia). apply read_app. exact B. }
+  pose proof (SI_good _ _ _ _ H) as G.
+  assert (FL : forall l, dk_dir d = Some (l, false) -> Forall (einv D) l).
+  { intros l El. destruct (si_dir _ _ _ _ H) as [E|[E _]]; rewrite E in El; [|discriminate].
+    inversion El; subst. apply (si_L _ _ _ _ H). }
+  split; [|split; [|split; [|split; [|split]]]]; auto.
+  - unfold d1. simpl. fold D. rewrite write_at_end. apply good_dat; auto.
+    intros l El. apply einv_line_ok. eapply Forall_impl; [|apply (FL l El)]. intros x Hx. apply einv_append. exact Hx.
+  - unfold d2, d1. simpl. fold D. rewrite write_at_end. rewrite <- Lp at 1. rewrite write_at_end. apply good_dat; auto.
+    intros l El. apply einv_line_ok. eapply Forall_impl; [|apply (FL l El)]. intros x Hx. apply X. exact Hx.
+Qed.
+
+Lemma in_keys (e : entry) l : In e l -> In (e_key e) (map e_key l).
+Proof. apply in_map. Qed.
+
+Lemma setitem_step t new todo m d L :
+  SI ((t, new) :: todo) m d L -> ~ In t (map fst todo) -> In (t, new) sets ->
+  all_good d (snd (setitem m d t new)) /\
+  exists L', SI todo (fst (setitem m d t new)) (dapply_all d (snd (setitem m d t new))) L'.
+Proof.
+  intros H Ht Hs. pose proof (SI_good _ _ _ _ H) as G.
+  destruct (addval_good _ _ _ _ new H) as (G1 & G2 & E2 & Ed2 & Lp & X). cbv zeta in *.
+  set (D := dk_dat d) in *. set (np := roundup (length D)) in *. set (pad := repeat 0%N (np - length D)) in *.
+  set (d1 := dapply d (SDatWrite (length D) pad)) in *. set (d2 := dapply d1 (SDatWrite np new)) in *.
+  assert (Hb0 : base0 <= np).
+  { unfold base0, np. apply roundup_mono. apply (si_len _ _ _ _ H). }
+  set (ea := {| e_key := t; e_pos := np; e_siz := length new |}).
+  assert (Ea : einv ((D ++ pad) ++ new) ea /\ rd ea ((D ++ pad) ++ new) = new).
+  { assert (R : rd ea ((D ++ pad) ++ new) = new) by (unfold rd, ea; simpl; rewrite <- Lp; apply read_app_new).
+    split; auto. split; [right; exact Hb0|]. split; [simpl; rewrite app_length; lia|].
+    right. exists new. split; auto. }
+  unfold setitem. unfold addval_steps, dlen. fold D np pad. fold ea.
+  destruct (lookup t (m_index m)) as [e0|] eqn:El.
+  - (* the key exists *)
+    destruct (lookup_Some _ _ _ El) as [Hin0 Hk0].
+    destruct (si_todo_idx _ _ _ _ H e0 Hin0) as [Hi0 Hr0]; [rewrite Hk0; left; reflexivity|]. fold D in Hr0.
+    assert (Hinv0 : einv D e0) by (pose proof (si_idx _ _ _ _ H) as F; rewrite Forall_forall in F; apply F; exact Hin0).
+    assert (Uniq : forall x, In x (m_index m) -> e_key x = t -> x = e0).
+    { intros x Hx Hkx. pose proof (lookup_unique t _ x (si_nd _ _ _ _ H) Hx Hkx) as U. congruence. }
+    assert (UniqL : forall x, In x L -> e_key x = t -> x = e0).
+    { intros x Hx Hkx. apply Uniq; auto. apply (si_todo_L _ _ _ _ H); auto. rewrite Hkx. left. reflexivity. }
+    destruct (nblocks (length new) <=? nblocks (e_siz e0)) eqn:Eb.
+    + (* overwritten in place *)
+      apply Nat.leb_le in Eb. cbn [fst snd].
+      assert (Hl : length new <= nblocks (e_siz e0) * BLOCK).
+      { pose proof (nblocks_ge (length new)). unfold BLOCK in *. nia. }
+      destruct Hinv0 as (Sf0 & Bd0 & Lk0).
+      assert (Hp : e_pos e0 <= length D) by lia.
+      set (D' := write_at (e_pos e0) new D).
+      set (ei := {| e_key := t; e_pos := e_pos e0; e_siz := length new |}).
+      assert (LenD' : length D <= length D' /\ e_pos e0 + length new <= length D').
+      { unfold D'. rewrite write_at_length by auto. lia. }
+      assert (Oth : forall x, einv D x -> e_key x <> t -> einv D' x /\ rd x D' = rd x D).
+      { intros x Hx Hkx. split; [apply einv_inplace_other; auto; congruence|].
+        apply rd_inplace_other; auto; [apply Hx|congruence]. }
+      assert (I0 : einv D' e0).
+      { split; auto. split; [lia|]. left. split; auto. right. exists new. split; [rewrite Hk0; exact Hs|].
+        unfold rd, D'. rewrite read_write_same by lia. fold (rd e0 D). rewrite Hr0. unfold torn.
+        assert (Lo : length (rd e0 dat0) = e_siz e0) by (unfold rd; apply read_at_length; apply (wf_inb _ _ WF0); exact Hi0).
+        unfold rd in Lo |- *. rewrite Lo. reflexivity. }
+      assert (Ii : einv D' ei /\ rd ei D' = new).
+      { assert (R : rd ei D' = new) by (unfold rd, ei, D'; simpl; apply read_write_exact; exact Hp).
+        split; auto. split; [|split].
+        - left. exists e0. simpl. repeat split; auto. unfold e_end. lia.
+        - simpl. lia.
+        - right. exists new. split; auto. }
+      assert (FL : Forall (einv D') L).
+      { pose proof (si_L _ _ _ _ H) as F. rewrite Forall_forall in *. intros x Hx.
+        destruct (N.eq_dec (e_key x) t) as [Ek|Ek]; [rewrite (UniqL x Hx Ek); exact I0|apply Oth; auto]. }
+      assert (Gd : good (dapply d (SDatWrite (e_pos e0) new))).
+      { simpl. fold D D'. apply good_dat; auto. intros l E. destruct (si_dir _ _ _ _ H) as [E'|[E' _]]; rewrite E' in E; [|discriminate].
+        inversion E; subst. apply einv_line_ok. exact FL. }
+      split.
+      * apply all_good_cons; auto. apply all_good_nil. exact Gd.
+      * exists L. assert (Elk : lookup (e_key ei) (m_index m) = Some e0) by exact El.
+        constructor; cbn [m_index dk_dat dk_dir dapply_all fold_left dapply]; fold D D'.
+        -- apply (si_dir _ _ _ _ H).
+        -- rewrite (dict_set_old_keys _ ei e0 Elk). apply (si_nd _ _ _ _ H).
+        -- rewrite Forall_forall. intros x Hx. destruct (dict_set_old_in _ _ _ _ Elk Hx) as [->|[Hx1 Hx2]]; [apply Ii|].
+           apply Oth; auto. pose proof (si_idx _ _ _ _ H) as F. rewrite Forall_forall in F. apply F. exact Hx1.
+        -- apply (si_Lnd _ _ _ _ H).
+        -- exact FL.
+        -- rewrite (dict_set_old_keys _ ei e0 Elk). apply (si_Lk _ _ _ _ H).
+        -- intros x Hx Hkx. destruct (dict_set_old_in _ _ _ _ Elk Hx) as [->|[Hx1 Hx2]]; [exfalso; apply Ht; exact Hkx|].
+           destruct (si_todo_idx _ _ _ _ H x Hx1) as [A B]; [right; exact Hkx|]. split; auto. fold D in B. rewrite <- B.
+           apply Oth; auto. pose proof (si_idx _ _ _ _ H) as F. rewrite Forall_forall in F. apply F. exact Hx1.
+        -- intros x Hx Hkx. assert (e_key x <> t) by (intros Ek; apply Ht; rewrite <- Ek; exact Hkx).
+           apply (dict_set_old_keeps _ ei e0); auto. apply (si_todo_L _ _ _ _ H); auto. right. exact Hkx.
+        -- pose proof (si_len _ _ _ _ H). fold D in H0. lia.
+    + (* does not fit: appended, the index entry moves *)
+      cbn [fst snd].
+      split.
+      * apply all_good_cons; auto. apply all_good_cons; auto. apply all_good_nil. exact G2.
+      * exists L. assert (Elk : lookup (e_key ea) (m_index m) = Some e0) by exact El.
+        change (dapply_all d [SDatWrite (length D) pad; SDatWrite np new]) with d2.
+        constructor; cbn [m_index]; rewrite ?E2, ?Ed2.
+        -- apply (si_dir _ _ _ _ H).
+        -- rewrite (dict_set_old_keys _ ea e0 Elk). apply (si_nd _ _ _ _ H).
+        -- rewrite Forall_forall. intros x Hx. destruct (dict_set_old_in _ _ _ _ Elk Hx) as [->|[Hx1 Hx2]]; [apply Ea|].
+           apply X. pose proof (si_idx _ _ _ _ H) as F. rewrite Forall_forall in F. apply F. exact Hx1.
+        -- apply (si_Lnd _ _ _ _ H).
+        -- eapply Forall_impl; [|apply (si_L _ _ _ _ H)]. intros x Hx. apply X. exact Hx.
+        -- rewrite (dict_set_old_keys _ ea e0 Elk). apply (si_Lk _ _ _ _ H).
+        -- intros x Hx Hkx. destruct (dict_set_old_in _ _ _ _ Elk Hx) as [->|[Hx1 Hx2]]; [exfalso; apply Ht; exact Hkx|].
+           destruct (si_todo_idx _ _ _ _ H x Hx1) as [A B]; [right; exact Hkx|]. split; auto. fold D in B. rewrite <- B.
+           apply X. pose proof (si_idx _ _ _ _ H) as F. rewrite Forall_forall in F. apply F. exact Hx1.
+        -- intros x Hx Hkx. assert (e_key x <> t) by (intros Ek; apply Ht; rewrite <- Ek; exact Hkx).
+           apply (dict_set_old_keeps _ ea e0); auto. apply (si_todo_L _ _ _ _ H); auto. right. exact Hkx.
+        -- pose proof (si_len _ _ _ _ H). fold D in H0. rewrite !app_length. lia.
+  - (* a new key: appended to .dat, then announced in .dir *)
+    cbn [fst snd]. apply lookup_None in El.
+    assert (HtL : ~ In t (map e_key L)) by (intro Hc; apply El; apply (si_Lk _ _ _ _ H); exact Hc).
+    set (d3 := dapply d2 (SDirAppend ea)).
+    assert (E3 : dk_dir d3 = Some (L ++ [ea], false)).
+    { unfold d3. cbn [dapply dk_dir]. rewrite Ed2. destruct (si_dir _ _ _ _ H) as [E|[E EL]]; rewrite E; [reflexivity|]. subst L. reflexivity. }
+    assert (D3 : dk_dat d3 = (D ++ pad) ++ new) by (unfold d3; cbn [dapply dk_dat]; exact E2).
+    assert (FL : Forall (einv ((D ++ pad) ++ new)) (L ++ [ea])).
+    { apply Forall_app. split; [|constructor; [apply Ea|constructor]].
+      eapply Forall_impl; [|apply (si_L _ _ _ _ H)]. intros x Hx. apply X. exact Hx. }
+    assert (NL : NoDup (map e_key (L ++ [ea]))).
+    { rewrite map_app. simpl. apply NoDup_snoc'; [apply (si_Lnd _ _ _ _ H)|exact HtL]. }
+    assert (G3 : good d3).
+    { unfold good. rewrite E3, D3. split; auto. apply einv_line_ok. exact FL. }
+    split.
+    * change ([SDatWrite (length D) pad; SDatWrite np new] ++ [SDirAppend ea]) with [SDatWrite (length D) pad; SDatWrite np new; SDirAppend ea].
+      apply all_good_cons; auto. apply all_good_cons; auto. apply all_good_cons; auto. apply all_good_nil. exact G3.
+    * exists (L ++ [ea]).
+      change (dapply_all d ([SDatWrite (length D) pad; SDatWrite np new] ++ [SDirAppend ea])) with d3.
+      constructor; cbn [m_index]; rewrite ?D3.
+      -- left. exact E3.
+      -- rewrite map_app. simpl. apply NoDup_snoc'; [apply (si_nd _ _ _ _ H)|exact El].
+      -- apply Forall_app. split; [|constructor; [apply Ea|constructor]].
+         eapply Forall_impl; [|apply (si_idx _ _ _ _ H)]. intros x Hx. apply X. exact Hx.
+      -- exact NL.
+      -- exact FL.
+      -- rewrite !map_app. apply incl_app_app; [apply (si_Lk _ _ _ _ H)|apply incl_refl].
+      -- intros x Hx Hkx. apply in_app_or in Hx. destruct Hx as [Hx|[<-|[]]]; [|exfalso; apply Ht; exact Hkx].
+         destruct (si_todo_idx _ _ _ _ H x Hx) as [A B]; [right; exact Hkx|]. split; auto. fold D in B. rewrite <- B.
+         apply X. pose proof (si_idx _ _ _ _ H) as F. rewrite Forall_forall in F. apply F. exact Hx.
+      -- intros x Hx Hkx. apply in_or_app. apply in_app_or in Hx. destruct Hx as [Hx|[<-|[]]]; [left|right; left; reflexivity].
+         apply (si_todo_L _ _ _ _ H); auto. right. exact Hkx.
+      -- pose proof (si_len _ _ _ _ H). fold D in H0. rewrite !app_length. lia.
+Qed.
+
+Lemma sets_good todo : forall m d L, SI todo m d L -> NoDup (map fst todo) -> incl todo sets ->
+  all_good d (sets_steps m d todo).
+Proof.
+  induction todo as [|[t new] todo IH]; intros m d L H Hn Hi; cbn [sets_steps].
+  - apply commit_good; [apply (SI_good _ _ _ _ H)|apply (si_nd _ _ _ _ H)|apply einv_line_ok, (si_idx _ _ _ _ H)].
+  - inversion Hn as [|? ? Ht Hn']; subst.
+    assert (Hs : In (t, new) sets) by (apply Hi; left; reflexivity).
+    destruct (setitem_step t new todo m d L H Ht Hs) as (A & L' & B).
+    destruct (setitem m d t new) as [m' st]. cbn [fst snd] in *.
+    apply all_good_app; auto. eapply IH; eauto. intros x Hx. apply Hi. right. exact Hx.
+Qed.
+
+(* ---- the deletes of the run (DbmDB.remove), before dump ---- *)
+Record DI (m : dmem) (d : ddisk) : Prop := {
+  di_dat : dk_dat d = dat0;
+  di_incl : incl (m_index m) idx0;
+  di_nd : NoDup (map e_key (m_index m));
+  di_dir : dk_dir d = Some (m_index m, false) \/ (dk_dir d = None /\ m_index m = [])
+}.
+
+Lemma DI_einv m d : DI m d -> Forall (einv (dk_dat d)) (m_index m).
+Proof.
+  intro H. rewrite (di_dat _ _ H). rewrite Forall_forall. intros e He. apply einv_orig. apply (di_incl _ _ H). exact He.
+Qed.
+
+Lemma DI_SI m d : DI m d -> SI sets m d (m_index m).
+Proof.
+  intro H. constructor.
+  - apply (di_dir _ _ H).
+  - apply (di_nd _ _ H).
+  - apply DI_einv. exact H.
+  - apply (di_nd _ _ H).
+  - apply DI_einv. exact H.
+  - apply incl_refl.
+  - intros e He _. split; [apply (di_incl _ _ H); exact He|]. rewrite (di_dat _ _ H). reflexivity.
+  - auto.
+  - rewrite (di_dat _ _ H). lia.
+Qed.
+
+Lemma dels_good dels : forall m d, DI m d -> NoDup (map fst sets) -> all_good d (dels_steps m d dels sets).
+Proof.
+  induction dels as [|k dels IH]; intros m d H Hn; cbn [dels_steps].
+  - eapply sets_good; [apply DI_SI; exact H|exact Hn|apply incl_refl].
+  - unfold delitem. destruct (lookup k (m_index m)) eqn:El.
+    + set (m' := {| m_index := dict_del (m_index m) k; m_modified := true |}).
+      assert (Nd' : NoDup (map e_key (m_index m'))) by (apply NoDup_map_filter, (di_nd _ _ H)).
+      assert (In' : incl (m_index m') idx0).
+      { intros x Hx. apply dict_del_in in Hx. apply (di_incl _ _ H). tauto. }
+      assert (F' : Forall (line_ok (dk_dat d)) (m_index m')).
+      { apply einv_line_ok. rewrite (di_dat _ _ H). rewrite Forall_forall. intros x Hx. apply einv_orig. apply In'. exact Hx. }
+      destruct (commit_good m' d) as (A & B & C & _); auto.
+      { apply (SI_good _ _ _ _ (DI_SI _ _ H)). }
+      apply all_good_app; auto. apply IH; [|exact Hn].
+      constructor; [rewrite B; apply (di_dat _ _ H)|exact In'|exact Nd'|left; apply C; reflexivity].
+    + simpl app. apply IH; auto.
+Qed.
+
+Theorem dumb_crash_good d0 dels k :
+  dk_dat d0 = dat0 -> (dk_dir d0 = Some (idx0, false) \/ (dk_dir d0 = None /\ idx0 = [])) ->
+  NoDup (map fst sets) -> good (dumb_crash d0 dels sets k).
+Proof.
+  intros Hd Hdir Hn. unfold dumb_crash, session_steps, dumb_open.
+  destruct Hdir as [E|[E E0]]; rewrite E.
+  - rewrite (dumb_load_id idx0 (wf_nodup _ _ WF0)). apply dels_good; auto. constructor; simpl; auto.
+    + apply incl_refl.
+    + apply (wf_nodup _ _ WF0).
+  - apply dels_good; auto. constructor; simpl; auto.
+    + intros x [].
+    + constructor.
+Qed.
+End DumbCrash.
+
+Lemma idx_wf_nil len : idx_wf [] len.
+Proof. constructor; simpl; try tauto. constructor. Qed.
+
+(* what the next process reads for a key after a kill at any step of a session *)
+Theorem dumb_crash_reads d0 dels sets k t :
+  dumb_wf d0 -> NoDup (map fst sets) ->
+  match dumb_read (dumb_crash d0 dels sets k) t with
+  | DRefused => True                     (* the index does not parse: open() raises *)
+  | DAbsent => True
+  | DBytes b =>
+      (exists old, dumb_read d0 t = DBytes old /\ (b = old \/ exists new, In (t, new) sets /\ b = torn old new)) \/
+      (exists new, In (t, new) sets /\ b = new)
+  end.
+Proof.
+  intros Hwf Hn.
+  set (idx0 := match dk_dir d0 with Some (l, _) => l | None => [] end).
+  assert (WF0 : idx_wf idx0 (length (dk_dat d0))).
+  { unfold idx0, dumb_wf in *. destruct (dk_dir d0) as [[l tn]|]; [apply Hwf|apply idx_wf_nil]. }
+  assert (Hdir : dk_dir d0 = Some (idx0, false) \/ (dk_dir d0 = None /\ idx0 = [])).
+  { unfold idx0, dumb_wf in *. destruct (dk_dir d0) as [[l tn]|]; [left; destruct Hwf as [-> _]; reflexivity|right; auto]. }
+  pose proof (dumb_crash_good idx0 (dk_dat d0) sets WF0 d0 dels k eq_refl Hdir Hn) as G.
+  set (d := dumb_crash d0 dels sets k) in *.
+  unfold dumb_read, dumb_open. unfold good in G.
+  destruct (dk_dir d) as [[l [|]]|]; auto.
+  destruct G as [Gn Gf]. cbn [m_index]. rewrite (dumb_load_id l Gn).
+  destruct (lookup t l) as [e|] eqn:El; auto.
+  destruct (lookup_Some _ _ _ El) as [Hin Hk]. rewrite Forall_forall in Gf. specialize (Gf e Hin).
+  destruct Gf as [[Hi0 Hr]|(new & Hs & Hr)].
+  - left. exists (rd e (dk_dat d0)). split.
+    + destruct Hdir as [E|[E E0]]; [|rewrite E0 in Hi0; destruct Hi0].
+      rewrite E. cbn [m_index]. rewrite (dumb_load_id idx0 (wf_nodup _ _ WF0)).
+      rewrite (lookup_unique t idx0 e (wf_nodup _ _ WF0) Hi0 Hk). reflexivity.
+    + rewrite Hk in Hr. exact Hr.
+  - right. exists new. rewrite Hk in Hs. split; auto.
+Qed.
+
+(* with the decoder oracles: a key yields the old record, the new record, nothing, or an error *)
+Section DumbRecords.
+  Variable enc : trec -> bytes.
+  Variable dec : bytes -> option trec.
+  Hypothesis Rp : R_prefix enc dec.
+  Hypothesis Rx : R_extra enc dec.
+
+  Lemma torn_cases (old new : bytes) :
+    torn old new = new \/ proper_prefix (torn old new) new \/
+    (length new < length old /\ torn old new = new ++ skipn (length new) old).
+  Proof.
+    unfold torn. destruct (Nat.lt_trichotomy (length new) (length old)) as [H|[H|H]].
+    - right. right. split; auto. rewrite firstn_all2; auto. rewrite app_length, skipn_length. lia.
+    - left. rewrite skipn_all2 by lia. rewrite app_nil_r. rewrite <- H. apply firstn_all.
+    - right. left. rewrite skipn_all2 by lia. rewrite app_nil_r.
+      exists (skipn (length old) new). split; [|symmetry; apply firstn_skipn].
+      intro Hc. apply (f_equal (@length N)) in Hc. rewrite skipn_length in Hc. simpl in Hc. lia.
+  Qed.
+
+  Theorem dumb_crash_records d0 dels (recs : list (N * trec)) k t :
+    dumb_wf d0 -> NoDup (map fst recs) ->
+    (forall b, dumb_read d0 t = DBytes b -> exists r, b = enc r) ->        (* what the DB held was written by doit *)
+    let sets := map (fun kr => (fst kr, enc (snd kr))) recs in
+    match dumb_record dec (dumb_crash d0 dels sets k) t with
+    | RRefused => True
+    | RAbsent => True
+    | RRecord r => dumb_record dec d0 t = RRecord r \/ exists r', In (t, r') recs /\ dec (enc r') = Some r
+    end.
+  Proof.
+    intros Hwf Hn Hold sets.
+    assert (Hn' : NoDup (map fst sets)).
+    { unfold sets. rewrite map_map. simpl. exact Hn. }
+    pose proof (dumb_crash_reads d0 dels sets k t Hwf Hn') as H.
+    unfold dumb_record. destruct (dumb_read (dumb_crash d0 dels sets k) t) as [| |b]; auto.
+    destruct (dec b) as [r|] eqn:Ed; auto.
+    assert (Hin : forall new, In (t, new) sets -> exists r', In (t, r') recs /\ new = enc r').
+    { intros new Hi. unfold sets in Hi. apply in_map_iff in Hi. destruct Hi as ([t' r'] & E & Hi). simpl in E.
+      inversion E; subst. exists r'. auto. }
+    destruct H as [(old & Ho & [->|(new & Hs & ->)])|(new & Hs & ->)].
+    - left. rewrite Ho, Ed. reflexivity.
+    - destruct (Hin new Hs) as (r' & Hr' & ->). destruct (Hold old Ho) as (ro & ->).
+      destruct (torn_cases (enc ro) (enc r')) as [E|[E|[E1 E2]]].
+      + right. exists r'. split; auto. rewrite <- E. exact Ed.
+      + rewrite (Rp r' _ E) in Ed. discriminate.
+      + rewrite E2, (Rx r' ro E1) in Ed. discriminate.
+    - destruct (Hin new Hs) as (r' & Hr' & ->). right. exists r'. auto.
+  Qed.
+End DumbRecords.
+
+(* ---- structural well-formedness is preserved at every crash state (so the hypothesis dumb_wf of the theorems
+   above holds for every disk reachable from the empty one by sessions that complete or are killed) ---- *)
+Definition ewf (D : bytes) (e : entry) : Prop := e_pos e + e_siz e <= length D /\ e_end e <= roundup (length D).
+Definition pw (S : list entry) : Prop :=
+  forall e1 e2, In e1 S -> In e2 S -> e_key e1 <> e_key e2 -> e_end e1 <= e_pos e2 \/ e_end e2 <= e_pos e1.
+Definition swf (D : bytes) (S : list entry) : Prop := Forall (ewf D) S /\ pw S.
+Definition wfd (d : ddisk) : Prop := match dk_dir d with Some (l, _) => swf (dk_dat d) l | None => True end.
+Definition SW (m : dmem) (d : ddisk) : Prop := swf (dk_dat d) (m_index m) /\ wfd d.
+Definition all_wfd (d : ddisk) (st : list dstep) : Prop := forall k, wfd (crash_after dapply d st k).
+
+Lemma all_wfd_nil d : wfd d -> all_wfd d [].
+Proof. intros H k. unfold crash_after. rewrite firstn_nil. exact H. Qed.
+Lemma all_wfd_cons d s st : wfd d -> all_wfd (dapply d s) st -> all_wfd d (s :: st).
+Proof. intros H1 H2 [|k]; [exact H1|]. apply (H2 k). Qed.
+Lemma all_wfd_app d s1 s2 : all_wfd d s1 -> all_wfd (dapply_all d s1) s2 -> all_wfd d (s1 ++ s2).
+Proof. intros H1 H2 k. rewrite crash_after_app. destruct (k <=? length s1); [apply H1|apply H2]. Qed.
+
+Lemma swf_nil D : swf D [].
+Proof. split; [constructor|intros ? ? []]. Qed.
+Lemma swf_incl D S S' : incl S' S -> swf D S -> swf D S'.
+Proof.
+  intros Hi [F P]. split.
+  - rewrite Forall_forall in *. intros x Hx. apply F. apply Hi. exact Hx.
+  - intros e1 e2 H1 H2. apply P; apply Hi; assumption.
+Qed.
+Lemma swf_grow D D' S : length D <= length D' -> swf D S -> swf D' S.
+Proof.
+  intros Hl [F P]. split; auto. eapply Forall_impl; [|exact F]. intros e [A B]. split; [lia|].
+  pose proof (roundup_mono _ _ Hl). lia.
+Qed.
+Lemma swf_snoc D S e : swf D S -> ewf D e -> (forall x, In x S -> e_end x <= e_pos e) -> swf D (S ++ [e]).
+Proof.
+  intros [F P] He Hx. split; [apply Forall_app; split; auto|].
+  intros e1 e2 H1 H2 Hk. apply in_app_or in H1. apply in_app_or in H2.
+  destruct H1 as [H1|[<-|[]]], H2 as [H2|[<-|[]]]; auto; try congruence.
+Qed.
+Lemma swf_dict_set D S e e1 : lookup (e_key e) S = Some e1 -> swf D S -> ewf D e ->
+  (forall x, In x S -> e_key x <> e_key e -> e_end x <= e_pos e \/ e_end e <= e_pos x) -> swf D (dict_set S e).
+Proof.
+  intros El [F P] He Hx. split.
+  - rewrite Forall_forall in *. intros x Hi. destruct (dict_set_old_in _ _ _ _ El Hi) as [->|[Hi' _]]; auto.
+  - intros x y Hx1 Hy1 Hk.
+    destruct (dict_set_old_in _ _ _ _ El Hx1) as [->|[Hx2 Hx3]], (dict_set_old_in _ _ _ _ El Hy1) as [->|[Hy2 Hy3]]; auto; try congruence.
+    + destruct (Hx y Hy2 Hy3); auto.
+Qed.
+
+Lemma idx_wf_swf l len D : length D = len -> idx_wf l len -> swf D l.
+Proof.
+  intros <- H. split.
+  - rewrite Forall_forall. intros e He. split; [apply (wf_inb _ _ H); auto|apply (wf_end _ _ H); auto].
+  - intros e1 e2 H1 H2 Hk. apply (wf_disj _ _ H); auto.
+Qed.
+Lemma swf_idx_wf l D : NoDup (map e_key l) -> swf D l -> idx_wf l (length D).
+Proof.
+  intros Hn [F P]. rewrite Forall_forall in F. constructor; auto; intros e He; apply (F e He).
+Qed.
+
+(* _commit *)
+Lemma lines_wfd rest : forall d acc t0,
+  dk_dir d = Some (acc, t0) -> swf (dk_dat d) (acc ++ rest) ->
+  let st := flat_map (fun e => [SDirTear; SDirLine e]) rest in
+  all_wfd d st /\ wfd (dapply_all d st) /\ dk_dat (dapply_all d st) = dk_dat d.
+Proof.
+  induction rest as [|e rest IH]; intros d acc t0 Hd Hs; cbv zeta.
+  - simpl. rewrite app_nil_r in Hs. assert (W : wfd d) by (unfold wfd; rewrite Hd; exact Hs).
+    split; [apply all_wfd_nil; exact W|]. split; auto.
+  - assert (W : wfd d).
+    { unfold wfd. rewrite Hd. eapply swf_incl; [|exact Hs]. intros x Hx. apply in_or_app. left. exact Hx. }
+    set (d1 := dapply d SDirTear). set (d2 := dapply d1 (SDirLine e)).
+    assert (E2 : dk_dir d2 = Some (acc ++ [e], false)) by (unfold d2, d1; simpl; rewrite Hd; reflexivity).
+    assert (W1 : wfd d1) by (unfold wfd, d1; simpl; rewrite Hd; unfold wfd in W; rewrite Hd in W; exact W).
+    destruct (IH d2 (acc ++ [e]) false E2) as (A & B & C).
+    { change (dk_dat d2) with (dk_dat d). rewrite <- app_assoc. exact Hs. }
+    change (flat_map (fun e0 => [SDirTear; SDirLine e0]) (e :: rest)) with
+      (SDirTear :: SDirLine e :: flat_map (fun e0 => [SDirTear; SDirLine e0]) rest).
+    split; [|split].
+    + apply all_wfd_cons; auto. apply all_wfd_cons; auto.
+    + exact B.
+    + exact C.
+Qed.
+
+Lemma commit_wfd m d : SW m d -> all_wfd d (commit_steps m) /\ SW m (dapply_all d (commit_steps m)).
+Proof.
+  intros [Hs W]. unfold commit_steps. destruct (m_modified m).
+  - set (d1 := dapply d SBakUnlink). set (d2 := dapply d1 SDirToBak). set (d3 := dapply d2 SDirCreate).
+    assert (W1 : wfd d1) by exact W.
+    assert (D2 : dk_dat d2 = dk_dat d) by (unfold d2, d1; simpl; destruct (dk_dir d); reflexivity).
+    assert (W2 : wfd d2) by (unfold d2, d1; simpl; destruct (dk_dir d); unfold wfd; simpl; exact I).
+    assert (W3 : wfd d3) by (unfold wfd, d3; simpl; apply swf_nil).
+    destruct (lines_wfd (m_index m) d3 [] false eq_refl) as (A & B & C).
+    { change (dk_dat d3) with (dk_dat d2). rewrite D2. exact Hs. }
+    split.
+    + apply all_wfd_cons; auto. apply all_wfd_cons; auto. apply all_wfd_cons; auto.
+    + change (dapply_all d ([SBakUnlink; SDirToBak; SDirCreate] ++ flat_map (fun e => [SDirTear; SDirLine e]) (m_index m)))
+        with (dapply_all d3 (flat_map (fun e => [SDirTear; SDirLine e]) (m_index m))).
+      split; auto. rewrite C. change (dk_dat d3) with (dk_dat d2). rewrite D2. exact Hs.
+  - split; [apply all_wfd_nil; exact W|]. split; auto.
+Qed.
+
+(* __setitem__ *)
+Lemma wfd_dat d D' : length (dk_dat d) <= length D' -> wfd d ->
+  wfd {| dk_dat := D'; dk_dir := dk_dir d; dk_bak := dk_bak d |}.
+Proof.
+  unfold wfd. simpl. destruct (dk_dir d) as [[l t0]|]; auto. intros Hl H. eapply swf_grow; eauto.
+Qed.
+
+Lemma setitem_wfd m d t new : SW m d ->
+  all_wfd d (snd (setitem m d t new)) /\ SW (fst (setitem m d t new)) (dapply_all d (snd (setitem m d t new))).
+Proof.
+  intros [Hs W].
+  set (D := dk_dat d). set (np := roundup (length D)). set (pad := repeat 0%N (np - length D)).
+  set (d1 := dapply d (SDatWrite (length D) pad)). set (d2 := dapply d1 (SDatWrite np new)).
+  assert (Lp : length (D ++ pad) = np).
+  { rewrite app_length. unfold pad. rewrite repeat_length. pose proof (roundup_ge (length D)). fold np in H. lia. }
+  assert (E1 : dk_dat d1 = D ++ pad) by (unfold d1; simpl; apply write_at_end).
+  assert (E2 : dk_dat d2 = (D ++ pad) ++ new).
+  { unfold d2. simpl. fold D. rewrite write_at_end. rewrite <- Lp. apply write_at_end. }
+  assert (W1 : wfd d1).
+  { unfold d1. simpl. fold D. rewrite write_at_end. apply wfd_dat; auto. fold D. rewrite app_length. lia. }
+  assert (W2 : wfd d2).
+  { unfold d2, d1. simpl. fold D. rewrite write_at_end. rewrite <- Lp at 1. rewrite write_at_end. apply wfd_dat; auto.
+    fold D. rewrite !app_length. lia. }
+  assert (Ed2 : dk_dir d2 = dk_dir d) by reflexivity.
+  set (ea := {| e_key := t; e_pos := np; e_siz := length new |}).
+  assert (Hea : ewf ((D ++ pad) ++ new) ea).
+  { unfold ewf, e_end, ea. simpl. rewrite (app_length (D ++ pad)), Lp. split; [lia|].
+    unfold np. rewrite roundup_aligned. lia. }
+  assert (Hend : forall x, ewf D x -> e_end x <= e_pos ea) by (intros x [_ B]; exact B).
+  assert (G2 : length D <= length ((D ++ pad) ++ new)) by (rewrite !app_length; lia).
+  unfold setitem. unfold addval_steps, dlen. fold D np pad. fold ea.
+  destruct (lookup t (m_index m)) as [e0|] eqn:El.
+  - destruct (lookup_Some _ _ _ El) as [Hin0 Hk0].
+    assert (He0 : ewf D e0) by (destruct Hs as [F _]; rewrite Forall_forall in F; apply F; exact Hin0).
+    destruct (nblocks (length new) <=? nblocks (e_siz e0)) eqn:Eb; cbn [fst snd].
+    + apply Nat.leb_le in Eb.
+      set (ei := {| e_key := t; e_pos := e_pos e0; e_siz := length new |}).
+      set (D' := write_at (e_pos e0) new D).
+      destruct He0 as [B0 C0].
+      assert (LenD' : length D <= length D' /\ e_pos e0 + length new <= length D').
+      { unfold D'. rewrite write_at_length by lia. lia. }
+      assert (Wd : wfd (dapply d (SDatWrite (e_pos e0) new))).
+      { simpl. fold D D'. apply wfd_dat; auto. fold D. lia. }
+      split; [apply all_wfd_cons; auto; apply all_wfd_nil; exact Wd|].
+      split; [|exact Wd]. cbn [m_index dapply_all fold_left dapply dk_dat]. fold D D'.
+      apply (swf_dict_set D' _ ei e0); [exact El|eapply swf_grow; [|exact Hs]; fold D; lia| |].
+      * unfold ewf, ei, e_end in *. simpl. split; [lia|]. pose proof (roundup_mono _ _ (proj1 LenD')). unfold BLOCK in *. nia.
+      * intros x Hx Hkx. destruct Hs as [_ P]. simpl in Hkx.
+        destruct (P e0 x Hin0 Hx) as [H1|H1]; [congruence| |].
+        -- right. unfold e_end, ei in *. simpl. unfold BLOCK in *. nia.
+        -- left. exact H1.
+    + split; [apply all_wfd_cons; auto; apply all_wfd_cons; auto; apply all_wfd_nil; exact W2|].
+      change (dapply_all d [SDatWrite (length D) pad; SDatWrite np new]) with d2.
+      split; [|exact W2]. cbn [m_index]. rewrite E2.
+      apply (swf_dict_set _ _ ea e0); [exact El|eapply swf_grow; [|exact Hs]; exact G2|exact Hea|].
+      intros x Hx _. left. apply Hend. destruct Hs as [F _]. rewrite Forall_forall in F. apply F. exact Hx.
+  - cbn [fst snd].
+    set (d3 := dapply d2 (SDirAppend ea)).
+    assert (D3 : dk_dat d3 = (D ++ pad) ++ new) by (unfold d3; cbn [dapply dk_dat]; exact E2).
+    assert (W3 : wfd d3).
+    { unfold wfd. rewrite D3. unfold d3. cbn [dapply dk_dir]. rewrite Ed2. unfold wfd in W. fold D in W.
+      destruct (dk_dir d) as [[l t0]|].
+      - apply swf_snoc; [eapply swf_grow; [|exact W]; exact G2|exact Hea|].
+        intros x Hx. apply Hend. destruct W as [F _]. rewrite Forall_forall in F. apply F. exact Hx.
+      - apply (swf_snoc _ [] ea); [apply swf_nil|exact Hea|intros x []]. }
+    change ([SDatWrite (length D) pad; SDatWrite np new] ++ [SDirAppend ea]) with [SDatWrite (length D) pad; SDatWrite np new; SDirAppend ea].
+    split; [apply all_wfd_cons; auto; apply all_wfd_cons; auto; apply all_wfd_cons; auto; apply all_wfd_nil; exact W3|].
+    change (dapply_all d [SDatWrite (length D) pad; SDatWrite np new; SDirAppend ea]) with d3.
+    split; [|exact W3]. cbn [m_index]. rewrite D3.
+    apply swf_snoc; [eapply swf_grow; [|exact Hs]; exact G2|exact Hea|].
+    intros x Hx. apply Hend. destruct Hs as [F _]. rewrite Forall_forall in F. apply F. exact Hx.
+Qed.
+
+Lemma sets_wfd todo : forall m d, SW m d -> all_wfd d (sets_steps m d todo).
+Proof.
+  induction todo as [|[t new] todo IH]; intros m d H; cbn [sets_steps].
+  - apply commit_wfd. exact H.
+  - destruct (setitem_wfd m d t new H) as [A B]. destruct (setitem m d t new) as [m' st]. cbn [fst snd] in *.
+    apply all_wfd_app; auto.
+Qed.
+
+Lemma dels_wfd dels sets : forall m d, SW m d -> all_wfd d (dels_steps m d dels sets).
+Proof.
+  induction dels as [|k dels IH]; intros m d H; cbn [dels_steps].
+  - apply sets_wfd. exact H.
+  - unfold delitem. destruct (lookup k (m_index m)).
+    + set (m' := {| m_index := dict_del (m_index m) k; m_modified := true |}).
+      assert (H' : SW m' d).
+      { destruct H as [Hs W]. split; auto. eapply swf_incl; [|exact Hs]. intros x Hx. apply dict_del_in in Hx. tauto. }
+      destruct (commit_wfd m' d H') as [A B]. apply all_wfd_app; auto.
+    + simpl app. apply IH. exact H.
+Qed.
+
+(* every crash state of a session started on a well-formed disk has a torn index or is well-formed again *)
+Theorem dumb_crash_wf d0 dels sets k :
+  dumb_wf d0 -> NoDup (map fst sets) ->
+  let d := dumb_crash d0 dels sets k in
+  (exists l, dk_dir d = Some (l, true)) \/ dumb_wf d.
+Proof.
+  intros Hwf Hn d.
+  set (idx0 := match dk_dir d0 with Some (l, _) => l | None => [] end).
+  assert (WF0 : idx_wf idx0 (length (dk_dat d0))).
+  { unfold idx0, dumb_wf in *. destruct (dk_dir d0) as [[l tn]|]; [apply Hwf|apply idx_wf_nil]. }
+  assert (Hdir : dk_dir d0 = Some (idx0, false) \/ (dk_dir d0 = None /\ idx0 = [])).
+  { unfold idx0, dumb_wf in *. destruct (dk_dir d0) as [[l tn]|]; [left; destruct Hwf as [-> _]; reflexivity|right; auto]. }
+  pose proof (dumb_crash_good idx0 (dk_dat d0) sets WF0 d0 dels k eq_refl Hdir Hn) as G. fold d in G.
+  assert (W : wfd d).
+  { unfold d, dumb_crash, session_steps, dumb_open. destruct Hdir as [E|[E E0]]; rewrite E.
+    - rewrite (dumb_load_id idx0 (wf_nodup _ _ WF0)). apply dels_wfd. split; cbn [m_index].
+      + eapply idx_wf_swf; [reflexivity|exact WF0].
+      + unfold wfd. rewrite E. eapply idx_wf_swf; [reflexivity|exact WF0].
+    - apply dels_wfd. split; cbn [m_index]; [apply swf_nil|]. unfold wfd. rewrite E. exact I. }
+  unfold good in G. unfold wfd in W. unfold dumb_wf.
+  destruct (dk_dir d) as [[l [|]]|]; [left; eexists; reflexivity| |right; exact I].
+  right. split; auto. apply swf_idx_wf; [apply G|exact W].
+Qed.
+
+(* hence: any sequence of sessions, each run to completion or killed at any step, starting from no files at all *)
+Theorem reachable_wf d : reachable d -> (exists l, dk_dir d = Some (l, true)) \/ dumb_wf d.
+Proof.
+  induction 1 as [|d dels sets k _ _ Hw Hn]; [right; exact I|]. apply dumb_crash_wf; auto.
+Qed.
+
+(* ===================================================================================================== *)
+(* (a) continued: the DB after an interrupted run                                                          *)
+(* ===================================================================================================== *)
+Lemma interrupt_no_save tasks wr cr cont alw fuel selected r k :
+  serial tasks wr cr cont alw fuel (r_init selected) None = (r, StopInterrupt k) ->
+  ~ In (ESave k) (r_tr r) /\ ~ In (ESuccess k) (r_tr r).
+Proof.
+  intro H. destruct (interrupt_flush _ _ _ _ _ _ _ _ _ H) as (pre & tds & E & _ & _ & _ & _ & N1 & N2).
+  rewrite E. split; intro Hin; apply in_app_or in Hin; destruct Hin as [Hin|Hin]; try contradiction;
+    simpl in Hin; destruct Hin as [Hin|[Hin|Hin]]; try discriminate;
+    apply in_map_iff in Hin; destruct Hin as (x & Hx & _); discriminate.
+Qed.
+
+Theorem interrupt_db tasks wr cr cont alw fuel selected r k (recd : name -> list (N * Z)) (m : spec) :
+  serial tasks wr cr cont alw fuel (r_init selected) None = (r, StopInterrupt k) ->
+  let m' := exec spec_step m (db_ops recd (r_tr r)) in
+  (has m' k = true -> has m k = true) /\
+  (forall j, ~ In (ESave j) (r_tr r) -> has m' j = true -> has m j = true) /\
+  (forall j, ~ In (ESave j) (r_tr r) -> ~ In (ERemove j) (r_tr r) -> m' j = m j) /\
+  (forall j, In (ESave j) (r_tr r) -> ~ In (ERemove j) (r_tr r) -> recd j <> [] -> has m' j = true).
+Proof.
+  intros H m'. destruct (interrupt_no_save _ _ _ _ _ _ _ _ _ H) as [N1 _].
+  split; [apply db_ops_unsaved; exact N1|]. split; [intros j; apply db_ops_unsaved|].
+  split; [intros j; apply db_ops_untouched|intros j; apply db_ops_saved].
+Qed.
+
+(* the three backends answer in_(j) after (any history, then) the session exactly as the map does *)
+Theorem session_backends (E F : Type) enc dec encdb decdb :
+  codec_ok E enc dec -> dbcodec_ok F encdb decdb ->
+  forall recd hist tr j,
+    let ops := hist ++ db_ops recd tr ++ [In_ j] in
+    let ans := OBool (has (exec spec_step (exec spec_step empty hist) (db_ops recd tr)) j) in
+    last (run_json F encdb decdb ops) OUnit = ans /\
+    last (run_dbm E enc dec false ops) OUnit = ans /\
+    last (run_sqlite E enc dec false false ops) OUnit = ans.
+Proof.
+  intros H1 H2 recd hist tr j ops ans.
+  rewrite (json_refines F encdb decdb H2), (dbm_refines E enc dec H1), (sqlite_refines E enc dec H1).
+  unfold ops. rewrite spec_in_last, last_last. auto.
+Qed.
